@@ -135,19 +135,26 @@ void builtin_with_target(vf::Ctx& c, vf::RunCfg<T> const& cfg, std::vector<std::
         // stop decision is not judged
         T sw_t = T(), swe_t = T();
         bool out_of_range = false;
+        long double kappa_iter = 1; // conditioning of the per-iteration variance (mean square over variance of the mean times N-1)
         for (std::size_t i = 0; i != j; ++i)
         {
             auto const& r = full.results()[i];
             total_calls += r.calls();
             nz += r.finite_calls(); // (evaluations that carry information: non-zero and finite)
             if (r.finite_calls() == 0) { continue; }
-            long double const var = r.variance();
+            // estimate and variance of the iteration from its sums, by the documented formulas (not through value() / variance())
+            long double const N = static_cast<long double>(r.calls());
+            long double const mean = static_cast<long double>(r.sum()) / N;
+            long double const msq = static_cast<long double>(r.sum_of_squares()) / N;
+            long double const var = (msq - mean * mean) / (N - 1.0L);
+            if (!(var > 0)) { out_of_range = true; continue; } // (a constant iteration: the weight 1/S^2 does not exist)
+            kappa_iter = std::max(kappa_iter, msq / (var * (N - 1.0L)));
             sw += 1.0L / var;
-            swe += static_cast<long double>(r.value()) / var;
-            T const w_t = T(1) / r.variance();
+            swe += mean / var;
+            T const var_t = static_cast<T>(var), w_t = T(1) / var_t;
             sw_t += w_t;
-            swe_t += w_t * r.value();
-            if (!(r.variance() >= std::numeric_limits<T>::min()) || !std::isfinite(w_t)) { out_of_range = true; }
+            swe_t += w_t * static_cast<T>(mean);
+            if (!(var_t >= std::numeric_limits<T>::min()) || !std::isfinite(w_t)) { out_of_range = true; }
         }
         if (nz != 0)
         {
@@ -164,7 +171,7 @@ void builtin_with_target(vf::Ctx& c, vf::RunCfg<T> const& cfg, std::vector<std::
             long double const E = swe / sw, S = 1.0L / std::sqrt(sw);
             rel = S / std::fabs(E);
             long double const kappa = 1.0L + E * E / ((total_calls - 1.0L) * S * S);
-            long double const band = std::max<long double>(1e-6L, 256 * vf::eps<T>() * kappa);
+            long double const band = std::max<long double>(1e-6L, 256 * vf::eps<T>() * (kappa + kappa_iter));
             if (std::fabs(rel - target) <= band * static_cast<long double>(target)) { ambiguous = true; }
         }
         if (std::isnan(rel) || std::isinf(rel)) { ambiguous = true; }
@@ -179,6 +186,36 @@ void builtin_with_target(vf::Ctx& c, vf::RunCfg<T> const& cfg, std::vector<std::
     VF_CHECK(c, out.results().size() == must_stop, "C12:stop-position", "target " << vf::show(target) << ": run " << (k0 ? "resumed after " + std::to_string(k0) + " iterations " : std::string())
         << "stopped after " << out.results().size() << " results, the combined relative error first reaches the target after " << must_stop << " (of " << n << ")");
     judged = true;
+    ++c.sub;
+}
+
+// exact boundary: the target is, bit for bit, the relative error the library's own combination has after iteration k of
+// an identical earlier run; the run must end at the first iteration whose relative error is not larger - equality counts
+template <typename T, typename R>
+void builtin_with_exact_target(vf::Ctx& c, vf::RunCfg<T> const& cfg, std::vector<std::size_t> const& calls, std::size_t k0, std::size_t k)
+{
+    using Chk = typename R::Chk;
+    auto go = [](Chk const&) { return true; };
+    std::size_t const n = calls.size();
+    if (!(k > k0 && k <= n)) { return; }
+    Chk const full = R::run(cfg, R::fresh(cfg), calls, go);
+    std::vector<T> rel(n + 1, std::numeric_limits<T>::quiet_NaN());
+    for (std::size_t j = 1; j <= n; ++j)
+    {
+        auto const comb = hep::accumulate<hep::weighted_with_variance>(full.results().begin(), full.results().begin() + j);
+        rel[j] = comb.error() / std::fabs(comb.value());
+    }
+    T const target = rel[k];
+    if (!(target > T(0)) || !(target <= T(1))) { return; }
+    std::size_t must_stop = n;
+    for (std::size_t j = k0 + 1; j <= n; ++j) { if (rel[j] <= target) { must_stop = j; break; } }
+    std::vector<std::size_t> const head(calls.begin(), calls.begin() + k0), tail(calls.begin() + k0, calls.end());
+    Chk const start = k0 ? R::run(cfg, R::fresh(cfg), head, go) : R::fresh(cfg);
+    Chk const out = R::run(cfg, start, tail, hep::callback<Chk>(hep::callback_mode::silent, "", target));
+    VF_CHECK(c, out.results().size() == must_stop, "C12:stop-position-exact", "target " << vf::show(target) << " = the relative error of the combination after iteration " << k
+        << ": run " << (k0 ? "resumed after " + std::to_string(k0) + " iterations " : std::string()) << "stopped after " << out.results().size() << " results, the relative error is first not larger than the target after "
+        << must_stop << " (of " << n << ")");
+    c.label("target-equals-relative-error");
     ++c.sub;
 }
 
@@ -313,6 +350,13 @@ void run_t(vf::Ctx& c)
         }
         else
         dispatch([&](auto r) { builtin_with_target<T, decltype(r)>(c, cfg, calls, target, k0, judged); });
+        if (!long_campaign && n)
+        {
+            std::size_t const k = k0 + 1 + t.pick(n - k0 ? n - k0 : 1);
+            bool exact = false;
+            dispatch([&](auto r) { builtin_with_exact_target<T, decltype(r)>(c, cfg, calls, k0, k); exact = true; });
+            (void) exact;
+        }
         c.label("builtin-positive-target");
         if (k0) { c.label("resumed-checkpoint"); }
         c.nontrivial = judged && n >= 2;
